@@ -7,6 +7,7 @@ mod c15;
 mod c03;
 mod c13;
 mod c11;
+mod c04;
 
 fn main() {
     std::panic::set_hook(Box::new(|_| {}));
@@ -36,6 +37,8 @@ fn main() {
         "c13-threads" => c13::threads(rest),
         "c11-replay" => c11::replay(rest),
         "c11-record" => c11::record(rest),
+        "c04-replay" => c04::replay(rest),
+        "c04-record" => c04::record(rest),
         x => {
             eprintln!("unknown subcommand {}", x);
             std::process::exit(2);
